@@ -11,6 +11,7 @@ import EzdxfVerif.Lemmas.DocLink
 import EzdxfVerif.Lemmas.DocHandles
 import EzdxfVerif.Lemmas.DocVersion
 import EzdxfVerif.Lemmas.DocNames
+import EzdxfVerif.Lemmas.DocFinal
 
 namespace EzdxfVerif.Props.C04
 open EzdxfVerif.Doc
@@ -77,6 +78,16 @@ theorem written_groups_closed (s : State) (ops : List Op) (h : DocInv s) (hb : B
 theorem handseed_above_all_issued (s : State) (ops : List Op) :
     ∀ h ∈ issuedAll s ops, h < (writeFile (run s ops)).handseed :=
   Doc.issuedAll_lt_next ops s
+
+/-- (final round) the written file, EXACTLY: after ANY history the entity handles of the file are precisely the live
+    entities that have an owner - nothing dead, nothing unlinked, nothing linked is missing (and each once:
+    `written_exactly_once`) -/
+theorem written_iff_live_linked (s : State) (ops : List Op) (h : DocInv s) (hb : BInv s) (ho : OwnerInv s)
+    (hl : LinkInv s) (hok : HistOk s ops) (x : Nat) :
+    x ∈ written (writeFile (run s ops)) ↔
+      (isAlive (run s ops) x = true ∧ (ownerOf (run s ops) x).isSome = true) :=
+  Doc.written_iff _ (Doc.full_inv_reachable s ops h hb hok).2 (Doc.owner_inv_reachable s ops h ho hok)
+    (Doc.link_inv_reachable s ops h hl hok) x
 
 /-! ### version gates and required entries (Session 3; tables regenerated from the live registry on every run) -/
 
